@@ -9,6 +9,19 @@ AX_R = ('axioms: the three real-number axioms of the Coq standard library (Class
         'sig_forall_dec, FunctionalExtensionality.functional_extensionality_dep) where Reals are used; ')
 
 CHECKS = {
+    'C15': dict(
+        technique='Coq proof (list induction, lia; Reals field/nra) about a hand-written executable model of the joint multi-event sum with the station-intersection rule and of combine_mu over abstract arithmetic; vm_compute / bit-exact PrimFloat correspondence against the real task (with coded stubs) and combine_mu',
+        text='Theorems in coq/Props/C15.v for every number of events, station lists and minimum: without relative data the joint log-probability '
+             'is the sum of the events\' own; each further event adds its own term and one term per earlier event; a pair sharing fewer '
+             'stations than the minimum contributes nothing and otherwise contributes its term on exactly the shared stations, which do not '
+             'depend on the order in which the other event lists them; the scale factor combined over stations is the inverse-variance '
+             'weighted mean of the per-station estimates (variance: harmonic combination) and is independent of station order, for any '
+             'number of stations and positive uncertainties. The unit test runs one two-event case and checks types and shapes.',
+        note='joint theorems closed under the global context; ' + AX_R + 'for the combination theorems. Models are hand-written: tied by running '
+             'the real MultipleEventsForwardTask with integer-coded stubs for the per-event task and the pair likelihood (combine=True, '
+             'return_zero=True) and by bit-exact execution of combine_mu. The per-station estimate and its zero-noise limit (true ratio) '
+             'are judged on the implementation only; zero-filtering branches are not modelled here.',
+        design='6 C15'),
     'C18': dict(
         technique='Coq proof (list induction, lia) about a hand-written executable model of the scatangle block parser, writer and greedy binning; vm_compute correspondence against the real functions on generated files',
         text='Theorems in coq/Props/C18.v for every sample list, station count and bin size: the weights of the bins add up to the weights of '
